@@ -114,7 +114,10 @@ def body(prop, cfg, tier, seed, replay, scratch, violations, known_hits, notes, 
         for h in cfg["harnesses"]:
             n = h["quick"] if tier == "quick" else h["thorough"]
             for s in seeds:
-                runs.append((h["name"], s, n, None, h.get("env")))
+                env = dict(h.get("env") or {})
+                if tier == "thorough":
+                    env.update(h.get("thorough_env") or {})
+                runs.append((h["name"], s, n, None, env or None))
     exes = {}
     for (hname, s, n, only, henv) in runs:
         if hname not in exes:
